@@ -4,12 +4,25 @@ the manifest is always valid and in sync with the registered checks)."""
 import json, sys, os
 
 CLAIMED = {
+ "C01": ("exploration",
+         "exhaustive small-scope enumeration of layouts x cached subsets x keys against a brute-force containment oracle",
+         "Layer 1: for every layout of a table with <=2 (thorough <=3) split points over a 5-6 symbol alphabet, every subset of its regions cached, six neighbouring tables (prefix names, namespaces) and every key of length <=3 (plus keys around the 32 KiB search-key truncation), the real cache lookup is compared with the unique containing cached region of the same table (else: must go to meta). 1.6M cases quick.",
+         "Scope bound on alphabet and lengths; layer 2 (end-to-end on the wire) is added by later revisions.", "DESIGN.md §4 C01"),
+ "C03": ("fault_enumeration",
+         "stateless model checking of the real region client: fault-position enumeration x server misbehaviours x all schedules up to a deviation bound (controlled scheduler, virtual time)",
+         "For 4 call mixes, every connection-operation index k is faulted in turn (partial writes included), every server misbehaviour is injected at every frame, with/without an external Close(); each unit is explored over all schedules with <=1 (quick) / <=2 (thorough) deviations. Oracle: exactly one completion per live call (lost = caller blocked at quiescence, duplicate = deliverer blocked or result left in the channel), ServerError class, later calls refused at once, reader/writer threads gone.",
+         "Atomicity between scheduling points (channel ops, locks, atomics, Once, net.Conn methods); deviation bound; 4 call mixes of <=3 calls.", "DESIGN.md §4 C03"),
+ "C08": ("model_checking",
+         "explicit-state breadth-first search over the real location cache, every transition executed on the implementation and judged against an interval model",
+         "All 1683 reachable states of a universe of every interval over 3 boundary points x 2 ids (plus a prefix-named table) with put/del of every region as transitions (87k per configuration), repeated with 0..130 filler regions to move entries across B-tree pages; invariant (no two cached regions of a table intersect) in every state, transition relation (evict-all-older / unchanged) on every edge, dead marks, and a differential rebuild from the canonical state.",
+         "Universe bound; equal ids with different names left open as the statement does. Concurrent puts are covered by the schedule units added in later revisions.", "DESIGN.md §4 C08"),
  # id: (level, technique, text, note, design_ref)
  "C16": ("exploration",
          "exhaustive small-scope enumeration (all pairs/triples of region names in a bounded alphabet) against a tuple-order oracle",
          "Every ordered pair of ~2.6k (quick) / ~10k (thorough) well-formed region names and every triple of a 160-name subset is compared with the real comparator and with a component-wise (table,start,id) oracle; search keys 'table,key,:' are compared against every name. Exhaustive within the stated alphabet and key length, which is where comparator mistakes live (bytes around ',' and unequal lengths).",
          "Scope bound: start keys <=2/<=3 bytes over {00,'+',',','-','a',ff}; well-formed names only.", "DESIGN.md §4 C16"),
 }
+FIX_COMMITS = ["0da2129"]
 NA_REASONS = {}
 PENDING_REASON = "check under construction in this revision (planned: see DESIGN.md §4); not claimed until its check is committed"
 
@@ -41,7 +54,7 @@ m = {
    "guard": "verif-overlay (no guarded code is committed in /repo: instrumentation is generated at check time by /verif/vinstr and applied with `go build -overlay`)",
    "enable": "bin/vcheck rewrites the non-test sources of github.com/tsuna/gohbase{,/region,/hrpc} from /repo's working tree (go/select/chan ops/map ranges -> verif/vrt; sync, sync/atomic, time, context -> shims), adds /verif/_inpkg/* accessor files to the packages and builds cmd/vworker with -overlay",
    "baseline_off_cmd": "cd /repo && GOFLAGS=-mod=mod GOPROXY=off GOSUMDB=off go test -vet=off -count=1 ./...",
-   "source_commits": [],
+   "source_commits": FIX_COMMITS,
    "add_only": True
  },
  "engines": [
